@@ -18,12 +18,13 @@ import (
 	"runtime"
 	"sort"
 	"strconv"
+	"strings"
 	"sync"
 	"time"
 
 	"pegverif/core"
 	"pegverif/drive"
-	_ "pegverif/props"
+	"pegverif/props"
 )
 
 func verifDir() string {
@@ -65,6 +66,13 @@ func main() {
 			os.Exit(2)
 		}
 		os.Exit(replay(rf.Property, rf.Key))
+	case "racepass":
+		drive.SilenceStdout()
+		n := 30
+		if len(os.Args) > 2 {
+			n, _ = strconv.Atoi(os.Args[2])
+		}
+		props.RacePass(n)
 	case "warmup":
 		drive.SilenceStdout()
 		drive.Setup()
@@ -306,6 +314,19 @@ func check(prop, tier string) int {
 		fmt.Println(l)
 	}
 
+	// C18: separate free-running race-detector pass of the same harness bodies (reports; only
+	// crash-capable races on Go maps inside pegnetd code count as violations)
+	var racePass map[string]interface{}
+	if prop == "C18" {
+		racePass = runRacePass(vd, tier)
+		if n, _ := racePass["map_races_in_pegnetd"].(int); n > 0 {
+			path := filepath.Join(rdir, "race-report.txt")
+			os.MkdirAll(rdir, 0777)
+			os.WriteFile(path, []byte(fmt.Sprint(racePass["first_map_race"])), 0666)
+			fmt.Printf("VIOLATION property=C18 replay=%s\n", path)
+			fresh = append(fresh, core.Violation{Key: "racepass", Signature: "C18:race-on-go-map-in-pegnetd"})
+		}
+	}
 	// evidence
 	cov := map[string]interface{}{
 		"evaluations":         merged.Evaluations,
@@ -330,6 +351,9 @@ func check(prop, tier string) int {
 	if len(merged.Samples) == 0 {
 		cov["samples"] = []interface{}{"(no sample recorded)"}
 	}
+	if racePass != nil {
+		cov["free_running_race_pass"] = racePass
+	}
 	ev := &core.Evidence{PropertyID: prop, Tier: tier, Seed: seed(), Level: p.Level, Coverage: cov,
 		Assumptions: p.Assumptions, WallS: time.Since(start).Seconds(), Violations: len(fresh)}
 	if err := core.WriteEvidence(filepath.Join(vd, "evidence"), ev); err != nil {
@@ -351,4 +375,69 @@ func check(prop, tier string) int {
 		return 1
 	}
 	return 0
+}
+
+// runRacePass runs bin/pvmc-race (built with -race by check.sh) and classifies the detector's reports.
+func runRacePass(vd, tier string) map[string]interface{} {
+	out := map[string]interface{}{}
+	bin := os.Getenv("PVMC_RACE_BIN")
+	if bin == "" {
+		bin = filepath.Join(vd, "bin", "pvmc-race")
+	}
+	if _, err := os.Stat(bin); err != nil {
+		out["skipped"] = "race-detector binary not built"
+		return out
+	}
+	n := "12"
+	if tier == "thorough" {
+		n = "150"
+	}
+	cmd := exec.Command(bin, "racepass", n)
+	cmd.Env = append(os.Environ(), "GORACE=halt_on_error=0 history_size=2")
+	b, _ := cmd.CombinedOutput()
+	reports := strings.Split(string(b), "WARNING: DATA RACE")
+	total, mapRaces, harness := 0, 0, 0
+	sites := map[string]int{}
+	first := ""
+	for _, rep := range reports[1:] {
+		total++
+		end := strings.Index(rep, "==================")
+		if end > 0 {
+			rep = rep[:end]
+		}
+		inPeg := strings.Contains(rep, "github.com/pegnet/pegnetd/")
+		if !inPeg {
+			harness++
+			continue
+		}
+		// first pegnetd frame of each side
+		var frames []string
+		for _, ln := range strings.Split(rep, "\n") {
+			ln = strings.TrimSpace(ln)
+			if strings.HasPrefix(ln, "github.com/pegnet/pegnetd/") {
+				frames = append(frames, strings.TrimPrefix(strings.SplitN(ln, "(", 2)[0], "github.com/pegnet/pegnetd/"))
+			}
+		}
+		key := ""
+		if len(frames) > 0 {
+			key = frames[0]
+		}
+		sites[key]++
+		if strings.Contains(rep, "runtime.mapassign") || strings.Contains(rep, "runtime.mapaccess") || strings.Contains(rep, "runtime.mapiter") || strings.Contains(rep, "runtime.mapdelete") {
+			mapRaces++
+			if first == "" {
+				first = rep
+			}
+		}
+	}
+	out["iterations"] = n
+	out["reports"] = total
+	out["reports_only_in_harness_or_libraries"] = harness
+	out["map_races_in_pegnetd"] = mapRaces
+	out["word_sized_or_other_races_in_pegnetd_by_first_frame"] = sites
+	if first != "" {
+		out["first_map_race"] = first
+	}
+	out["completed"] = strings.Contains(string(b), "RACEPASS: "+n+" iterations done")
+	return out
 }
